@@ -234,7 +234,7 @@ def _r4(ctx):
     ctx.rule("R-C14-4", floor=4, what="histogram inputs are 2*amplitude and meanstress; re-binning picks each level's binning by name")
     lc = prog.cls(LC)
     h = prog.lookup_method(lc, "histogram")
-    d = [n for n in ast.walk(h.node) if isinstance(n, ast.Dict) and {const_value(k) for k in n.keys} == {"range", "meanstress"}]
+    d = [n for n in ast.walk(h.node) if isinstance(n, ast.Dict) and {"range", "meanstress"} <= {const_value(k) for k in n.keys}]
     if len(d) != 1:
         raise AnalysisError("LoadCollective.histogram: range/meanstress frame not found")
     cols = {const_value(k): v for k, v in zip(d[0].keys, d[0].values)}
@@ -886,7 +886,7 @@ def variants():
     def hist_noabs(tree):
         f = find_func(tree, "LoadCollective.histogram")
         for n in ast.walk(f):
-            if isinstance(n, ast.Dict) and {const_value(k) for k in n.keys} == {"range", "meanstress"}:
+            if isinstance(n, ast.Dict) and {"range", "meanstress"} <= {const_value(k) for k in n.keys}:
                 n.values[0] = parse_expr("self._obj['to'] - self._obj['from']")
                 return True
         return False
